@@ -52,7 +52,7 @@ def make_details(shape, marker):
     if shape == "binary+empty":
         return {"b": Content(BIN, lambda: [b"\xff\x00"]), "e": Content(TXT, lambda: [])}
     if shape == "several":
-        return {"d1": text_content(marker + "-one"), "d2": Content(TXT, lambda: [(marker + "-two\nline2").encode("utf8")]), "traceback": text_content(marker + "-tb")}
+        return {"d1": text_content(marker + "-one"), "d2": Content(TXT, lambda: [(marker + "-two\nline2").encode("utf8")]), "traceback": text_content(marker + "-tb"), "traceback-1": text_content(marker + "-later")}
     if shape == "reason":
         return {"reason": text_content(marker + "-why"), "d": text_content(marker + "-text")}
     raise AssertionError(shape)
